@@ -208,13 +208,16 @@ func init() {
 }
 
 func init() {
-	registerExtra("C01", "function level (verif hook): sortProposals on 0..12 proposals built through fbb.NewProposal with titles carrying every precedence marker (//WL2K Z/, O/, P/, R/, none, several), payloads of equal and different compressed sizes and distinct MIDs, compared with the Lean sortProposals (the subject of sort_perm / sort_sorted).", func(c *Ctx) {
+	registerExtra("C01", "function level (verif hook): sortProposals on 0..52 proposals built through fbb.NewProposal with titles carrying every precedence marker (//WL2K Z/, O/, P/, R/, none, several), payloads of equal and different compressed sizes and distinct MIDs, compared with the Lean sortProposals (the subject of sort_perm / sort_sorted).", func(c *Ctx) {
 		r := c.Rng
 		var cases []Case
 		titles := []string{"//WL2K Z/ flash", "//WL2K O/ immediate", "//WL2K P/ priority", "//WL2K R/ routine", "plain", "", "re: //WL2K P/ x", "//WL2K O/ and //WL2K Z/", "//wl2k z/ lower", "//WL2K Z/"}
 		payloads := [][]byte{[]byte("a"), []byte("b"), []byte("hello world"), bytes.Repeat([]byte("x"), 500), bytes.Repeat([]byte("xy"), 250), []byte("c")}
 		for i := 0; i < c.Budget(300, 5000); i++ {
 			n := r.Intn(13)
+			if i%3 == 0 {
+				n = 13 + r.Intn(40) // beyond the insertion-sort threshold of Go's sort package
+			}
 			props := make([]*fbb.Proposal, n)
 			var toks []string
 			for j := range props {
